@@ -657,7 +657,8 @@ func (p c20) Exec(t *core.Trace) *core.Result {
 		res.Sample = fmt.Sprintf("mke2fs refused %v: %s", args, clip(string(out), 200))
 		return res
 	}
-	res.Hashes = append(res.Hashes, core.Mix(core.HashStr(strings.Join(args[:len(args)-2], " ")), tag))
+	// (the state hash must not contain the scratch directory, whose name holds the process id)
+	res.Hashes = append(res.Hashes, core.Mix(core.HashStr(strings.ReplaceAll(strings.Join(args[:len(args)-2], " "), dir, "TREE")), tag))
 
 	// ---------------------------------------------------------------- debugfs -w
 	extentless := style == "ext3" || style == "ext2" || style == "ext4-noextent"
